@@ -110,9 +110,12 @@ fn jfacts(text: &[u8], orig: &Value) -> Value {
             let sumsame = v["checksum"].is_string() && v["checksum"] == orig["checksum"];
             let (a, b) = (canon_snapshot(&v["snapshot"]), canon_snapshot(&orig["snapshot"]));
             let contentsame = a == b;
-            json!({"parsed": true, "ver": ver, "sumsame": sumsame, "contentsame": contentsame})
+            // the version the ORIGINAL package states is by definition a supported one; any other value is either
+            // unsupported or selects another checksum scheme than the one the stored checksum was made with
+            let versame = v["version"] == orig["version"];
+            json!({"parsed": true, "ver": ver, "versame": versame, "sumsame": sumsame, "contentsame": contentsame})
         }
-        _ => json!({"parsed": false, "ver": -1, "sumsame": false, "contentsame": false}),
+        _ => json!({"parsed": false, "ver": -1, "versame": false, "sumsame": false, "contentsame": false}),
     }
 }
 
